@@ -34,6 +34,9 @@ type Prophet struct {
 	peerPredictabilities map[bpv7.EndpointID]map[bpv7.EndpointID]float64
 	// dataMutex is a RW-mutex which protects change operations to the algorithm's metadata
 	dataMutex sync.RWMutex
+	// sentMutex serialises the read-modify-write cycles on a bundle's "routing/prophet/sent" store property.
+	// Core.forward reports the failures of parallel transmissions from one goroutine each.
+	sentMutex sync.Mutex
 	// config contains the values for prophet constants
 	config ProphetConfig
 }
@@ -286,6 +289,9 @@ func (prophet *Prophet) SenderForBundle(bp BundleDescriptor) (sender []cla.Conve
 
 	delete = false
 
+	prophet.sentMutex.Lock()
+	defer prophet.sentMutex.Unlock()
+
 	bundleItem, err := prophet.c.store.QueryId(bp.Id)
 	if err != nil {
 		log.WithFields(log.Fields{
@@ -375,6 +381,9 @@ func (prophet *Prophet) SenderForBundle(bp BundleDescriptor) (sender []cla.Conve
 }
 
 func (prophet *Prophet) ReportFailure(bp BundleDescriptor, sender cla.ConvergenceSender) {
+	prophet.sentMutex.Lock()
+	defer prophet.sentMutex.Unlock()
+
 	bundleItem, err := prophet.c.store.QueryId(bp.Id)
 	if err != nil {
 		log.WithFields(log.Fields{
